@@ -87,7 +87,7 @@ def run_case(case):
     COUNTERS["sut_" + o["kind"]] += 1
     if R.status == "inconsistent":
         COUNTERS["ref_inconsistent"] += 1
-    v = judge.judge(o, R, F)
+    v = judge.judge(o, R, F, propagate=(case["mode"] == "cli"))
     nt = R.nchoices >= 2 and any(F[k] for k in ("has_ad_body", "rec", "has_neg", "evidence_derived", "nonground_query"))
     feats.append("mode:" + case["mode"])
     feats.append("worlds>=32" if R.nworlds >= 32 else "worlds<32")
